@@ -60,6 +60,13 @@ class ThePool(RecPool):
         _log(self, None, {"a": a, "b": b, "k": k})
 
 
+class EmptyPool(ThePool):
+    """a container-like pool that is currently empty (falsy), but a pool all the same"""
+
+    def __len__(self):
+        return 0
+
+
 class BoomPool(RecPool):
     def __init__(self, a=0, b=0, *, k=None):
         super().__init__()
@@ -67,7 +74,7 @@ class BoomPool(RecPool):
         raise FAIL_WITH[0]("constructor failed")
 
 
-PLUGINS = {c.__name__: c for c in (Ctl, Deco, EagerDeco, BoomDeco, BoomCtl, ThePool, BoomPool)}
+PLUGINS = {c.__name__: c for c in (Ctl, Deco, EagerDeco, BoomDeco, BoomCtl, ThePool, BoomPool, EmptyPool)}
 
 
 # -- argument-valued plugins ---------------------------------------------------------------------------
